@@ -112,6 +112,7 @@ inductive Ev where
   | exitAt (k : Nat)        -- NOT nesting: the block `k` levels below the innermost one is left first
   | get                     -- `get_current_dependency()`
   | arith (op : Op)         -- a bare operator on two p-boxes
+  | call (op : Op) (d : Code)   -- an EXPLICIT method `x.op(y, dependency=d)`: the ambient setting plays no role
   | spawnThread (child : Nat)   -- `threading.Thread(...).start()`
   | spawnTask (child : Nat)     -- `asyncio.create_task(...)` / `asyncio.to_thread(...)`
   deriving DecidableEq, Repr
@@ -146,6 +147,7 @@ def stepCtx (c : Ctx) : Ev → Option Ctx
   | .exitAt k => leaveAt c k
   | .get => some c
   | .arith _ => some c
+  | .call _ _ => some c
   | .spawnThread _ => some c
   | .spawnTask _ => some c
 
@@ -168,6 +170,7 @@ structure Obs where
 /-- observation made in context `c` (the context *after* the event `e`) -/
 def obsOf (c : Ctx) : Ev → Obs
   | .arith op => ⟨get c, some (operator op c)⟩
+  | .call op d => ⟨get c, some (method op d)⟩
   | _ => ⟨get c, none⟩
 
 def trace (c : Ctx) : List Ev → Option (List Obs)
